@@ -3,6 +3,7 @@ package main
 import (
 	"fmt"
 	"go/ast"
+	"go/token"
 	"go/types"
 	"sort"
 )
@@ -223,7 +224,15 @@ func checkC12(p *Prog, r *Report) {
 				ok = true
 			}
 		}
-		r.check(ok, "C12.K5", st.Fn.Name, p.Pos(st.Node), "store(fecEncoder.next)", "(next + k) % paws", "the encoder id is not advanced as (next + k) % paws")
+		detail := "(next + k) % paws"
+		if !ok && dataSealOnly(p, st) {
+			// An unreduced +1 is exact for a data position: paws is a multiple of the
+			// group size and a data position is never the last of its group, provided
+			// every group has at least one parity position.
+			ok = parityPositive(p)
+			detail = "next + 1 at a data position (never the last of a group: parityShards > 0 by construction)"
+		}
+		r.check(ok, "C12.K5", st.Fn.Name, p.Pos(st.Node), "store(fecEncoder.next)", detail, "the encoder id is not advanced as (next + k) % paws")
 	}
 }
 
@@ -270,4 +279,58 @@ func sliceElemStruct(t types.Type) *types.Struct {
 		return structOf(s.Elem())
 	}
 	return nil
+}
+
+// dataSealOnly: the store increments next by exactly one inside a function
+// that stamps typeData and nothing else.
+func dataSealOnly(p *Prog, st FieldStore) bool {
+	one := false
+	switch n := st.Node.(type) {
+	case *ast.IncDecStmt:
+		one = n.Tok == token.INC
+	case *ast.AssignStmt:
+		if st.Rhs != nil {
+			t := p.Term(st.Rhs)
+			l := Lin(t)
+			one = l.C == 1 && len(l.Coef) == 1
+			for _, a := range l.Atoms {
+				if !(a.Op == "fld" && a.Obj == p.Field("fecEncoder", "next")) {
+					one = false
+				}
+			}
+			if n.Tok == token.ADD_ASSIGN {
+				one = t.IsConst() && t.Int == 1
+			}
+		}
+	}
+	if !one {
+		return false
+	}
+	var types_ []int64
+	ast.Inspect(st.Fn.Body, func(x ast.Node) bool {
+		if call, ok := x.(*ast.CallExpr); ok {
+			if f := p.Callee(call); f != nil && f.Name() == "PutUint16" && len(call.Args) == 2 {
+				if t := p.Term(call.Args[1]); t.IsConst() {
+					types_ = append(types_, t.Int)
+				}
+			}
+		}
+		return true
+	})
+	return len(types_) == 1 && types_[0] == p.ConstInt("typeData")
+}
+
+func parityPositive(p *Prog) bool {
+	ok := false
+	for _, st := range p.FieldStores(p.Field("fecEncoder", "parityShards")) {
+		if st.Rhs == nil {
+			return false
+		}
+		fs := p.FactsOf(st.Fn).AtNode(st.Node)
+		if !fs.Holds(lt(tConst(0), p.Term(st.Rhs))) {
+			return false
+		}
+		ok = true
+	}
+	return ok
 }
